@@ -29,7 +29,14 @@ def base(rnd):
         nonlocal n
         n += 1
         return f's{n:03d}'
-    spec = [{'t': 'source', 'ids': IDS[:rnd.randint(2, 4)], 'fields': {f: fresh() for f in FIELDS}}]
+    ids = IDS[:rnd.randint(2, 4)]
+    if rnd.random() < 0.35:
+        # a Merge of two datasets with string ids: the routing table is part of every static hash below
+        k = rnd.randint(1, len(ids) - 1)
+        spec = [{'t': 'merge', 'parts': [[{'t': 'source', 'ids': ids[:k], 'fields': {f: fresh() for f in FIELDS}}],
+                                         [{'t': 'source', 'ids': ids[k:], 'fields': {f: fresh() for f in FIELDS}}]]}]
+    else:
+        spec = [{'t': 'source', 'ids': ids, 'fields': {f: fresh() for f in FIELDS}}]
     for _ in range(rnd.randint(1, 3)):
         f = rnd.choice(FIELDS)
         args = [f] if rnd.random() < 0.5 else [f, [x for x in FIELDS if x != f][0]]
@@ -42,6 +49,10 @@ def base(rnd):
     if rnd.random() < 0.5:
         sil = '~mask' if rnd.random() < 0.5 else 'verbose=~mask'
         spec.append({'t': 'transform', 'fields': {'image': [fresh(), ['image', sil]]}, 'params': {}, 'inherit': True})
+    # a Filter at the end: the hash of `ids` then holds the STATIC hash of everything above it
+    if rnd.random() < 0.5:
+        sympool.TABLE['t011'] = lambda *a: True
+        spec.append({'t': 'filter', 'pred': ['t011', [rnd.choice(FIELDS)]]})
     return spec, fresh
 
 
@@ -66,7 +77,7 @@ def rewrites(spec, fresh, rnd, tmp):
     """(name, builder) pairs; each builder returns a CallableLayer computing the same fields"""
     out = []
     out.append(('rebuild', lambda: P.build(spec, [])[0]))
-    if len(spec) >= 3:
+    if len(spec) >= 3 and spec[0]['t'] == 'source':
         def right():
             ls = [P.build_layer(d, []) for d in spec]
             return Chain(ls[0], Chain(*ls[1:]) if False else ls[1], *ls[2:]) if len(ls) < 3 else Chain(Chain(ls[0], ls[1]), *ls[2:])
@@ -87,6 +98,7 @@ def rewrites(spec, fresh, rnd, tmp):
     pos = rnd.randint(1, len(spec))
     out.append(('insert-ram', lambda: P.build(spec[:pos] + [{'t': 'ram', 'names': None, 'size': rnd.choice([None, 2])}] + spec[pos:], [])[0]))
     out.append(('insert-disk', lambda: P.build(spec[:pos] + [{'t': 'disk', 'names': FIELDS, 'root': 0}] + spec[pos:], [tmp])[0]))
+    out.append(('insert-columns', lambda: P.build(spec[:pos] + [{'t': 'columns', 'names': FIELDS, 'root': 0, 'shard': rnd.choice([None, 2])}] + spec[pos:], [tmp + '_c'])[0]))
     out.append(('insert-inherit-all', lambda: P.build(spec[:pos] + [{'t': 'transform', 'fields': {}, 'params': {}, 'inherit': True}] + spec[pos:], [])[0]))
     out.append(('append-checkids', lambda: P.build(spec + [{'t': 'checkids'}], [])[0]))
     out.append(('append-keep-all', lambda: P.build(spec + [{'t': 'keep', 'ids': IDS}], [])[0]))
@@ -107,7 +119,7 @@ def rewrites(spec, fresh, rnd, tmp):
 def one(rnd, tmp):
     spec, fresh = base(rnd)
     field = 'image'
-    key = rnd.choice(spec[0]['ids'])
+    key = rnd.choice(spec[0]['ids'] if spec[0]['t'] == 'source' else [i for p_ in spec[0]['parts'] for i in p_[0]['ids']])
     layer, _ = P.build(spec, [])
     g, h = observe(layer, field, key)
     rec = {'spec': spec, 'field': field, 'key': key, 'digest': digest(h), 'value': g(key), 'ids_digest': ids_digest(layer), 'rewrites': []}
